@@ -176,6 +176,16 @@ def chain_clause(model, rep, funcs):
         rep.instance("S11.base", f.loc())
         ok = bool(calls)
         det = ""
+        if not calls and name.endswith("_multiple"):
+            # delegation to the verified single-template sibling, once per (template, mask) pair of the zipped lists, with the sub-volume itself
+            sib = name.split(".")[-1].replace("_multiple", "_single")
+            MD = Matcher(f)
+            sub = [p_ for p_ in ("img", "subvolume") if p_ in f.param_names()]
+            ok = bool(sub) and any(MD.has(pt) for pt in (
+                f"[self.{sib}({sub[0]}, $t, $m, ...) for $t, $m in zip(template_list, mask_list)]",
+                f"for $t, $m in zip(template_list, mask_list):\n    $r = self.{sib}({sub[0]}, $t, $m, ...)\n    ...",
+                f"for $t, $m in zip(template_list, mask_list):\n    $o.append(self.{sib}({sub[0]}, $t, $m, ...))"))
+            det = "" if ok else f"neither {callee_attr}(pre_transform(image * mask), ...) nor a delegation to {sib} per (template, mask) pair"
         for c in calls:
             a0 = c.args[0] if c.args else None
             good = isinstance(a0, ast.Call) and isinstance(a0.func, ast.Attribute) and a0.func.attr == "pre_transform" and a0.args and \
